@@ -137,18 +137,22 @@ func readRecordHeaderV4(reader *checksumByteReader) (payloadSizeUncompressed uin
 		return 0, 0, false, err
 	}
 
-	checksumStart := reader.Count()
 	expectedChecksum, err := binary.ReadUvarint(reader)
 	if err != nil {
 		return 0, 0, false, err
 	}
 
-	// the checksum can't cover its own bytes: the writer stores it in its shortest form, an over-long encoding of the
-	// same value means these bytes were altered (and the header would extend into the payload)
-	var canonical [binary.MaxVarintLen64]byte
-	if reader.Count()-checksumStart != binary.PutUvarint(canonical[:], expectedChecksum) {
+	// every field has exactly one encoding, the writer's shortest form. An over-long varint (or a nil flag other than
+	// 0/1) means that header bytes were altered: such a varint keeps its value while it swallows the byte behind it,
+	// which shifts the rest of the header — for the checksum, which can't cover its own bytes, into the payload
+	var scratch [binary.MaxVarintLen64]byte
+	canonicalLen := len(MagicNumberSeparatorLongBytes) + 1 +
+		binary.PutUvarint(scratch[:], payloadSizeUncompressed) +
+		binary.PutUvarint(scratch[:], payloadSizeCompressed) +
+		binary.PutUvarint(scratch[:], expectedChecksum)
+	if recordNil > 1 || reader.Count() != canonicalLen {
 		return 0, 0, false,
-			fmt.Errorf("%w: checksum [%x] is not stored in its shortest form", HeaderChecksumMismatchErr, expectedChecksum)
+			fmt.Errorf("%w: the header is not stored in its shortest form", HeaderChecksumMismatchErr)
 	}
 
 	if actualChecksum != expectedChecksum {
